@@ -360,7 +360,7 @@ def replay_file(data):
 
 def bounded(tier, seed):
     rnd = random.Random(seed)
-    maxn, maxL, per = (400, 4, 4) if tier == 'quick' else (2500, 6, 12)
+    maxn, maxL, per = (400, 4, 8) if tier == 'quick' else (2500, 6, 16)
     ev, nt, viol, samples = 0, set(), [], []
     t0 = time.time()
     budget = 150 if tier == 'quick' else 1500
